@@ -625,6 +625,19 @@ pub fn gen_c08(base_seed: u64, batch: &str, run: u64, rng: &mut Rng) -> Scenario
             _ => Op::Report { slot: 0 },
         };
     }
+    // the original is told not to verify when dropped *before* anybody clones it (the clones inherit
+    // that): what the clones' calls did still reaches the explicit verification at the end
+    let mut prelude = prelude;
+    if rng.chance(1, 8) {
+        threads[0].insert(0, Op::NoVerifyInDrop { slot: 0 });
+        prelude += 1;
+        // (a plain drop would be silent by design then)
+        for op in threads[0].iter_mut() {
+            if matches!(op, Op::Drop { slot: 0 }) {
+                *op = Op::Verify { slot: 0 };
+            }
+        }
+    }
     Scenario {
         prop: "C08".into(),
         base_seed,
@@ -779,7 +792,10 @@ pub fn check_c08(scn: &Scenario) -> Checked {
             *stats.probes.entry("only_user_panics_verdict_by_counts".into()).or_default() += 1;
         }
         // the state the verdict is about: after the calls that lent values made while they were released
-        let last_inside = res.log.calls.iter().filter(|c| inside(c) && c.parent.is_none()).max_by_key(|c| c.return_step).and_then(|c| c.post.clone());
+        // (the snapshot of a call is taken right after its evaluation; a call that an answer function
+        // makes is evaluated after its outer call: the last evaluation inside the operation is the call
+        // with the highest id, whatever its nesting - only this thread is making calls by now)
+        let last_inside = res.log.calls.iter().rev().find(|c| inside(c)).and_then(|c| c.post.clone());
         if let Some(pre) = last_inside.as_ref().or(o.pre.as_ref()) {
             if !pre.errors.is_empty() {
                 violations.push(v(
